@@ -19,6 +19,10 @@ type Walker struct {
 	Atom func(cond ssa.Value) (name string, neg bool)
 	// Event is called for every instruction on the walked path.
 	Event func(in ssa.Instruction, w *Walk)
+	// Choose, when set, decides a branch before the valuation is consulted:
+	// it returns the successor index to take, or -1 to fall back to the
+	// valuation, or -2 to stop the walk (recorded in Walk.Fork).
+	Choose func(iff *ssa.If, w *Walk) int
 }
 
 // Walk is the state of one walk.
@@ -31,6 +35,7 @@ type Walk struct {
 	Ret       *ssa.Return
 	Panicked  bool
 	Undecided string
+	Fork      *ssa.If // set when Choose asked to stop at an undecided fork
 	loopSeen  map[*ssa.BasicBlock]int
 	InLoop    int // >0 while inside the symbolic iteration of a range loop
 	phiEdge   map[*ssa.Phi]ssa.Value
@@ -184,6 +189,9 @@ func (w *Walker) Run(val map[string]bool) *Walk {
 		for _, in := range b.Instrs {
 			if w.Event != nil {
 				w.Event(in, k)
+				if k.Undecided != "" {
+					return k
+				}
 			}
 			switch x := in.(type) {
 			case *ssa.Return:
@@ -205,6 +213,18 @@ func (w *Walker) Run(val map[string]bool) *Walk {
 						next = b.Succs[1]
 					}
 					break
+				}
+				if w.Choose != nil {
+					c := w.Choose(x, k)
+					if c == -2 {
+						k.Fork = x
+						k.Undecided = "fork"
+						return k
+					}
+					if c >= 0 {
+						next = b.Succs[c]
+						break
+					}
 				}
 				v, ok := k.EvalBool(x.Cond)
 				if !ok {
